@@ -375,7 +375,7 @@ def correspondence(ctx):
             continue
         mats = [None if s.R is None else np.asarray(s.R, dtype=float) for s in surfs]
         P, S, tags = _rays_for(rng, specs[0], mats[0], pr['a'], nrays, pr['n0'], maxang=pr.get('maxang'))
-        for single in ((False, True) if idx % 3 == 0 else (False,)):
+        for single in ((False, True) if (idx // 6) % 2 == 0 else (False,)):
             try:
                 P_hist, S_hist, _ = run_impl(specs, P, S, pr['n0'], single=single)
                 err = None
